@@ -303,9 +303,347 @@ def oracleCvx (p1 p2 : List (V2 Rat)) (eps : Rat) (out : List (V2 Float)) : Stri
     if rabs (Ao - At) ≤ tolA then "pass"
     else s!"fail area out={Ao} true={At} (doubled areas) nout={O.length}"
 
+/-! ## non-convex polygon intersection: canonical printing (model side) -/
+
+/-- lexicographic comparison of number lists: `-1`, `0`, `1` -/
+def cmpKey : List Float → List Float → Int
+  | [], [] => 0
+  | [], _ => -1
+  | _, [] => 1
+  | x :: xs, y :: ys => if x < y then -1 else if y < x then 1 else cmpKey xs ys
+
+abbrev Item := List Float × String
+
+def cmpSeq : List Item → List Item → Int
+  | [], [] => 0
+  | [], _ => -1
+  | _, [] => 1
+  | x :: xs, y :: ys => let c := cmpKey x.1 y.1; if c ≠ 0 then c else cmpSeq xs ys
+
+/-- lexicographically least rotation (the first one among equals) -/
+def leastRotation (c : List Item) : List Item :=
+  (List.range c.length).foldl (fun best k =>
+    let r := c.drop k ++ c.take k
+    if cmpSeq r best < 0 then r else best) c
+
+def insertComp (x : List Item) : List (List Item) → List (List Item)
+  | [] => [x]
+  | y :: ys => if cmpSeq x y < 0 then x :: y :: ys else y :: insertComp x ys
+
+/-- same canonical form as `canonical` in `harness/src/c15.rs`: components rotated to their least rotation and sorted -/
+def canonical (comps : List (List Item)) : String :=
+  let cs := (comps.map leastRotation).foldl (fun acc c => insertComp c acc) []
+  cs.foldl (fun s c => c.foldl (fun s it => s ++ " " ++ it.2) (s ++ s!" {c.length}")) s!"ok {cs.length}"
+
+def natF (n : Nat) : Float := Float.ofNat n
+
+def lockey : PolyLoc Float → Item
+  | .onVertex i => ([0.0, natF i], s!"v{i}")
+  | .onEdge i j u v => ([1.0, natF i, natF j, u, v], s!"e {i} {j} {ff u} {ff v}")
+
+def emitItem : Emit Float → Item
+  | .inter ip => let a := lockey ip.loc1; let b := lockey ip.loc2; ([0.0] ++ a.1 ++ b.1, s!"b {a.2} {b.2}")
+  | .vtx p v => let a := lockey (.onVertex v); if p = 0 then ([1.0] ++ a.1, s!"p {a.2}") else ([2.0] ++ a.1, s!"q {a.2}")
+  | .fin => ([], "")
+
+/-- split at the `fin` markers; the callback form keeps empty components (the harness does the same) -/
+def splitTrace (tr : List (Emit Float)) : List (List (Emit Float)) :=
+  let r := tr.foldl (fun (acc : List (List (Emit Float)) × List (Emit Float)) e =>
+    match e with
+    | .fin => (acc.1 ++ [acc.2], [])
+    | e => (acc.1, acc.2 ++ [e])) ([], [])
+  if r.2.isEmpty then r.1 else r.1 ++ [r.2]
+
+def modelNcLocs (p1 p2 : List (V2 Float)) : String :=
+  let r := polygonsIntersection p1.toArray p2.toArray
+  match r.status with
+  | .err => "err"
+  | .panic => "panic"
+  | .ok => canonical ((splitTrace r.trace).map fun c => c.map emitItem)
+
+def modelNcPoints (p1 p2 : List (V2 Float)) : String :=
+  let r := polygonsIntersectionPoints p1.toArray p2.toArray
+  match r.1 with
+  | .err => "err"
+  | .panic => "panic"
+  | .ok => canonical (r.2.map fun c => c.map fun v => ([v.x, v.y], fv2 v))
+
+/-! ## oracle: non-convex polygon intersection (exact rational, independent of the model)
+
+Domain: two simple polygons with at least 3 vertices, counter-clockwise (the documented contract of
+`polygons_intersection`).  The truth is computed by the **signed fan decomposition**: for a simple polygon `A` with fan
+triangles `T_i = (a_0, a_i, a_{i+1})` of signs `s_i`, `σ_A · Σ_i s_i 1_{T_i} = 1_A` almost everywhere (`σ_A` = orientation),
+hence `area(A ∩ B) = σ_A σ_B Σ_i Σ_j s_i s_j area(T_i ∩ T_j)`, each triangle pair clipped exactly (Sutherland–Hodgman in
+`Rat`).  Nothing of the intersection-graph walk is used. -/
+
+def dot2 (u v : V2 Rat) : Rat := u.x * v.x + u.y * v.y
+
+/-- exact: `p` on the closed segment `[a, b]` -/
+def onSeg0 (a b p : V2 Rat) : Bool :=
+  area2R a b p == 0 && rmin a.x b.x ≤ p.x && p.x ≤ rmax a.x b.x && rmin a.y b.y ≤ p.y && p.y ≤ rmax a.y b.y
+
+/-- exact: the closed segments `[a,b]` and `[c,d]` have a common point -/
+def segsMeet (a b c d : V2 Rat) : Bool :=
+  let d1 := area2R a b c; let d2 := area2R a b d; let d3 := area2R c d a; let d4 := area2R c d b
+  ((decide (d1 > 0) && decide (d2 < 0)) || (decide (d1 < 0) && decide (d2 > 0))) &&
+    ((decide (d3 > 0) && decide (d4 < 0)) || (decide (d3 < 0) && decide (d4 > 0)))
+  || onSeg0 a b c || onSeg0 a b d || onSeg0 c d a || onSeg0 c d b
+
+/-- exact simplicity: no zero-length edge, adjacent edges meet only in their common vertex, other edges are disjoint -/
+def isSimple (poly : List (V2 Rat)) : Bool :=
+  let n := poly.length
+  let es := (edgesOf poly).toArray
+  decide (3 ≤ n) && es.all (fun e => !(veq e.1 e.2)) &&
+  (List.range n).all fun i => (List.range n).all fun j =>
+    if j ≤ i then true else
+    match es[i]?, es[j]? with
+    | some (a, b), some (c, d) =>
+      if j = i + 1 then !(area2R a b d == 0 && decide (dot2 (b.sub a) (d.sub c) < 0))
+      else if i = 0 && j = n - 1 then !(area2R c d b == 0 && decide (dot2 (d.sub c) (b.sub a) < 0))
+      else !(segsMeet a b c d)
+    | _, _ => true
+
+/-- **the exact predicate of the known finding**: a vertex of `P` lies on the boundary of `Q` (this covers shared
+vertices, a vertex touching an edge from inside or outside, and collinear overlapping edges — an overlap of positive
+length always contains an end point of one of the two edges) -/
+def vertexOnBoundary (P Q : List (V2 Rat)) : Bool :=
+  P.any fun v => (edgesOf Q).any fun (a, b) => onSeg0 a b v
+
+structure Tri where
+  a : V2 Rat
+  b : V2 Rat
+  c : V2 Rat
+  s : Rat
+
+/-- signed fan triangles, each made counter-clockwise, with its sign -/
+def fanTris (poly : List (V2 Rat)) : List Tri :=
+  match poly with
+  | v0 :: rest =>
+    (List.zip rest (rest.drop 1)).filterMap fun (v1, v2) =>
+      let S := area2R v0 v1 v2
+      if S > 0 then some ⟨v0, v1, v2, 1⟩ else if S < 0 then some ⟨v0, v2, v1, -1⟩ else none
+  | [] => []
+
+def Tri.lo (t : Tri) : V2 Rat := ⟨rmin t.a.x (rmin t.b.x t.c.x), rmin t.a.y (rmin t.b.y t.c.y)⟩
+def Tri.hi (t : Tri) : V2 Rat := ⟨rmax t.a.x (rmax t.b.x t.c.x), rmax t.a.y (rmax t.b.y t.c.y)⟩
+
+/-- twice the area of the intersection of two counter-clockwise triangles -/
+def triMeet2 (t u : Tri) : Rat :=
+  if t.hi.x ≤ u.lo.x || u.hi.x ≤ t.lo.x || t.hi.y ≤ u.lo.y || u.hi.y ≤ t.lo.y then 0 else
+  let c := clipHalfPlane (clipHalfPlane (clipHalfPlane [t.a, t.b, t.c] u.a u.b) u.b u.c) u.c u.a
+  rabs (shoelaceR c)
+
+/-- `2 · ∫ w_P · w_Q` (winding numbers); for simple polygons `= ± 2 · area(P ∩ Q)` -/
+def windingMeet2 (P Q : List (V2 Rat)) : Rat :=
+  let tq := fanTris Q
+  (fanTris P).foldl (fun acc t => tq.foldl (fun acc u => acc + t.s * u.s * triMeet2 t u) acc) 0
+
+/-- `p` on the closed segment `[a,b]` up to the distance-like slack `sl` (`unit` = the length unit of the coordinates) -/
+def onSegmentU (a b p : V2 Rat) (sl unit : Rat) : Bool :=
+  rabs (area2R a b p) ≤ sl * (unit + ninf (b.sub a)) &&
+    rmin a.x b.x - sl ≤ p.x && p.x ≤ rmax a.x b.x + sl && rmin a.y b.y - sl ≤ p.y && p.y ≤ rmax a.y b.y + sl
+
+/-- even–odd membership of a point off the boundary (leftward ray, half-open rule) or within `sl` of the boundary -/
+def inClosedPoly (poly : List (V2 Rat)) (v : V2 Rat) (sl unit : Rat) : Bool :=
+  let es := edgesOf poly
+  es.any (fun (a, b) => onSegmentU a b v sl unit) || rayCrossings v es true % 2 == 1
+
+/-- two edges cross at an angle too small for the floating-point `denom` to be trusted -/
+def illConditionedCrossing (P Q : List (V2 Rat)) : Bool :=
+  (edgesOf P).any fun (a, b) => (edgesOf Q).any fun (c, d) =>
+    segsMeet a b c d && decide (rabs (cross2 (b.sub a) (d.sub c)) ≤ (ninf (b.sub a) * ninf (d.sub c)) / 100000)
+
+/-- `nearTouch` with an explicit length unit -/
+def nearTouchU (P Q : List (V2 Rat)) (diam : Rat) : Bool :=
+  let τ : Rat := 1 / 10000000
+  (edgesOf P).any fun (a, b) => Q.any fun v =>
+    decide (rabs (area2R a b v) ≤ τ * diam * (ninf (b.sub a) + τ * diam)) &&
+    decide (rmin a.x b.x - τ * diam ≤ v.x) && decide (v.x ≤ rmax a.x b.x + τ * diam) &&
+    decide (rmin a.y b.y - τ * diam ≤ v.y) && decide (v.y ≤ rmax a.y b.y + τ * diam)
+
+/-! ### integer fast path for the domain checks (inputs scaled to integers; same predicates as above, `Int` arithmetic) -/
+abbrev PI := Int × Int
+def iarea2 (a b c : PI) : Int := (b.1 - a.1) * (c.2 - a.2) - (b.2 - a.2) * (c.1 - a.1)
+def iabs (x : Int) : Int := if x < 0 then -x else x
+def imin (a b : Int) : Int := if b < a then b else a
+def imax (a b : Int) : Int := if a < b then b else a
+def ininf (a b : PI) : Int := imax (iabs (b.1 - a.1)) (iabs (b.2 - a.2))
+def iedges (poly : List PI) : List (PI × PI) := match poly with
+  | [] => []
+  | p :: ps => List.zip (p :: ps) (ps ++ [p])
+def ionSeg (a b p : PI) : Bool :=
+  iarea2 a b p == 0 && imin a.1 b.1 ≤ p.1 && p.1 ≤ imax a.1 b.1 && imin a.2 b.2 ≤ p.2 && p.2 ≤ imax a.2 b.2
+def isegsMeet (a b c d : PI) : Bool :=
+  let d1 := iarea2 a b c; let d2 := iarea2 a b d; let d3 := iarea2 c d a; let d4 := iarea2 c d b
+  ((decide (d1 > 0) && decide (d2 < 0)) || (decide (d1 < 0) && decide (d2 > 0))) &&
+    ((decide (d3 > 0) && decide (d4 < 0)) || (decide (d3 < 0) && decide (d4 > 0)))
+  || (d1 == 0 && ionSeg a b c) || (d2 == 0 && ionSeg a b d) || (d3 == 0 && ionSeg c d a) || (d4 == 0 && ionSeg c d b)
+def iisSimple (poly : List PI) : Bool :=
+  let n := poly.length
+  let es := (iedges poly).toArray
+  decide (3 ≤ n) && es.all (fun e => !(e.1 == e.2)) &&
+  (List.range n).all fun i => (List.range n).all fun j =>
+    if j ≤ i then true else
+    match es[i]?, es[j]? with
+    | some (a, b), some (c, d) =>
+      let dt (u v w z : PI) : Int := (v.1 - u.1) * (z.1 - w.1) + (v.2 - u.2) * (z.2 - w.2)
+      if j = i + 1 then !(iarea2 a b d == 0 && decide (dt a b c d < 0))
+      else if i = 0 && j = n - 1 then !(iarea2 c d b == 0 && decide (dt c d a b < 0))
+      else !(isegsMeet a b c d)
+    | _, _ => true
+def ivertexOnBoundary (P Q : List PI) : Bool :=
+  P.any fun v => (iedges Q).any fun (a, b) => ionSeg a b v
+/-- `nearTouchU` with τ = 10⁻⁷ cross-multiplied -/
+def inearTouch (P Q : List PI) (diam : Int) : Bool :=
+  let T : Int := 10000000
+  (iedges P).any fun (a, b) => Q.any fun v =>
+    decide (iabs (iarea2 a b v) * T * T ≤ diam * (ininf a b * T + diam)) &&
+    decide (imin a.1 b.1 * T - diam ≤ v.1 * T) && decide (v.1 * T ≤ imax a.1 b.1 * T + diam) &&
+    decide (imin a.2 b.2 * T - diam ≤ v.2 * T) && decide (v.2 * T ≤ imax a.2 b.2 * T + diam)
+def iillConditioned (P Q : List PI) : Bool :=
+  (iedges P).any fun (a, b) => (iedges Q).any fun (c, d) =>
+    decide (iabs ((b.1 - a.1) * (d.2 - c.2) - (b.2 - a.2) * (d.1 - c.1)) * 100000 ≤ ininf a b * ininf c d) && isegsMeet a b c d
+def toPI (v : V2 Rat) : PI := (v.x.num, v.y.num)
+
+inductive NcOut where
+  | comps (cs : List (List (V2 Rat))) (finite : Bool)
+  | err
+  | unstable
+  | panic
+  | bad
+
+/-- smallest power of two `s` such that every coordinate times `s` is an integer (inputs are binary64 values) -/
+def commonScale (ps : List (V2 Rat)) : Rat :=
+  ((ps.foldl (fun (m : Nat) v => Nat.max m (Nat.max v.x.den v.y.den)) 1 : Nat) : Rat)
+
+/-- The judgement proper.  `unit` is the length unit: the driver multiplies every coordinate by a common power of two so
+that the inputs are integers (exact arithmetic on integers is several times faster than on dyadic fractions); all
+tolerances are expressed in that unit, so the verdict does not depend on the scaling. -/
+def oracleNcU (unit : Rat) (exact : Bool) (p1 p2 : List (V2 Rat)) (o : NcOut) : String :=
+  if p1.length < 3 || p2.length < 3 then "skip fewer-than-3-vertices" else
+  -- the scaled inputs are integers: the domain checks run on `Int`
+  let i1 := p1.map toPI; let i2 := p2.map toPI
+  if !(iisSimple i1) || !(iisSimple i2) then "skip not-simple" else
+  if shoelaceR p1 < 0 || shoelaceR p2 < 0 then "skip clockwise-input (documented contract: counter-clockwise)" else
+  let bb := (p1 ++ p2).foldl (fun (m : Rat) v => rmax m (ninf v)) 0
+  let diam := unit + bb
+  let diam2 := diam * diam
+  let vob := ivertexOnBoundary i1 i2 || ivertexOnBoundary i2 i1
+  if !vob && (inearTouch i1 i2 diam.num || inearTouch i2 i1 diam.num) then "skip within-epsilon-of-degeneracy" else
+  if !vob && !exact && iillConditioned i1 i2 then "skip ill-conditioned-crossing" else
+  let tag := if vob then " [vertex-on-boundary]" else ""
+  let cls := if vob then "touching" else "general"
+  match o with
+  | .bad => "fail unparsable-output"
+  | .panic => "fail panic" ++ tag
+  | .err => "fail infinite-loop-error-on-valid-input" ++ tag
+  | .unstable => "fail output-depends-on-hash-map-order" ++ tag
+  | .comps cs finite =>
+    if !finite then "fail non-finite-output" ++ tag else
+    let true2 := windingMeet2 p1 p2          -- both counter-clockwise: σ = +1
+    let tolA : Rat := diam2 / 1000000000
+    if !exact && true2 ≤ 2 * tolA && true2 > 0 then "skip rounding-sensitive" else
+    let slack : Rat := diam / 100000000
+    let u2 := unit * unit
+    match cs.flatten.find? (fun v => !(inClosedPoly p1 v slack unit && inClosedPoly p2 v slack unit)) with
+    | some v => s!"fail output-vertex-outside-an-input ({v.x / unit},{v.y / unit})" ++ tag
+    | none =>
+      let out2 := (cs.map fun c => rabs (shoelaceR c)).foldl (· + ·) 0
+      if true2 == 0 && !cs.isEmpty then s!"fail nonempty-output-for-disjoint-interiors ncomp={cs.length} 2*area={out2 / u2}" ++ tag else
+      if true2 > 0 && cs.isEmpty then s!"fail empty-output-but-interiors-meet 2*true={true2 / u2}" ++ tag else
+      if rabs (out2 - true2) > 2 * tolA then s!"fail area 2*out={out2 / u2} 2*true={true2 / u2} ncomp={cs.length}" ++ tag else
+      -- components pairwise interior-disjoint
+      let arr := cs.toArray
+      let overlap : Rat := (List.range arr.size).foldl (fun acc i => (List.range arr.size).foldl (fun acc j =>
+        if i < j then acc + rabs (windingMeet2 (arr.getD i []) (arr.getD j [])) else acc) acc) 0
+      if overlap > 2 * tolA then s!"fail components-overlap 2*area={overlap / u2}" ++ tag else
+      s!"pass {cls} ncomp={cs.length}"
+
+def oracleNc (p1 p2 : List (V2 Rat)) (o : NcOut) : String :=
+  let exact := p1.all isLat2 && p2.all isLat2
+  let s := commonScale (p1 ++ p2)
+  let sc (l : List (V2 Rat)) : List (V2 Rat) := l.map fun v => ⟨v.x * s, v.y * s⟩
+  let o' := match o with
+    | .comps cs f => NcOut.comps (cs.map sc) f
+    | x => x
+  oracleNcU s exact (sc p1) (sc p2) o'
+
+/-- parse `ok k (n (x y)*)*` | `err` | `unstable …` | `panic …` -/
+def parseNcPoints (out : List String) : NcOut :=
+  match out with
+  | "err" :: _ => .err
+  | "unstable" :: _ => .unstable
+  | "panic" :: _ => .panic
+  | "ok" :: rest =>
+    match run (do let cs ← plist (plist (do let x ← pfo; let y ← pfo; pure (⟨x, y⟩ : V2 Float))); pend; pure cs) rest with
+    | some cs => .comps (cs.map fun c => c.map q2) (cs.all fun c => c.all fun v => FloatIO.isFinite v.x && FloatIO.isFinite v.y)
+    | none => .bad
+  | _ => .bad
+
+def plocP : P (Option (PolyLoc Float)) := do
+  let t ← tok
+  if t = "e" then do let i ← pnat; let j ← pnat; let u ← pfo; let v ← pfo; pure (some (.onEdge i j u v))
+  else if t.startsWith "v" then pure ((t.drop 1).toString.toNat?.map PolyLoc.onVertex)
+  else failure
+
+/-- exact point of a location, `none` when an index is out of range or the edge is not `(i, (i+1) % n)` -/
+def locPointR (pts : Array (V2 Rat)) : PolyLoc Float → Option (V2 Rat × Bool)
+  | .onVertex i => pts[i]?.map fun p => (p, true)
+  | .onEdge i j u v =>
+    match pts[i]?, pts[j]? with
+    | some a, some b => if j = (i + 1) % pts.size then
+        some ((a.smul (q u)).add (b.smul (q v)), FloatIO.isFinite u && FloatIO.isFinite v) else none
+    | _, _ => none
+
+/-- parse the location stream `ok k (n item*)*`, item = `b loc loc` | `p loc` | `q loc`; returns the points (exact) and
+`false` if some `b` item denotes two points farther apart than the slack -/
+def parseNcLocs (p1 p2 : Array (V2 Rat)) (slack : Rat) (out : List String) : NcOut × Bool :=
+  match out with
+  | "err" :: _ => (.err, true)
+  | "unstable" :: _ => (.unstable, true)
+  | "panic" :: _ => (.panic, true)
+  | "ok" :: rest =>
+    let item : P (Option (V2 Rat × Bool × Bool)) := do
+      let t ← tok
+      if t = "b" then do
+        let a ← plocP; let b ← plocP
+        pure (match a, b with
+          | some a, some b => match locPointR p1 a, locPointR p2 b with
+            | some (x, f1), some (y, f2) => some (x, f1 && f2, rabs (x.x - y.x) ≤ slack && rabs (x.y - y.y) ≤ slack)
+            | _, _ => none
+          | _, _ => none)
+      else if t = "p" then do let a ← plocP; pure (a.bind fun a => (locPointR p1 a).map fun (x, f) => (x, f, true))
+      else if t = "q" then do let a ← plocP; pure (a.bind fun a => (locPointR p2 a).map fun (x, f) => (x, f, true))
+      else failure
+    match run (do let cs ← plist (plist item); pend; pure cs) rest with
+    | some cs =>
+      if cs.any fun c => c.any Option.isNone then (.bad, true) else
+      let cs' := cs.map fun c => c.filterMap id
+      (.comps ((cs'.map fun c => c.map (·.1)).filter (fun c => !c.isEmpty)) (cs'.all fun c => c.all (·.2.1)), cs'.all fun c => c.all (·.2.2))
+    | none => (.bad, true)
+  | _ => (.bad, true)
+
 /-! ## handlers -/
 def handler (fn : String) : Option Handler :=
   match fn with
+  | "polygons_intersection_points" | "polygons_touching_points" => some {
+      model := fun a => run (do let p1 ← plist pv2; let p2 ← plist pv2; pend; pure (modelNcPoints p1 p2)) a
+      oracle := fun a o => match run (do let p1 ← plist pv2; let p2 ← plist pv2; pure (p1, p2)) a with
+        | some (p1, p2) => oracleNc (p1.map q2) (p2.map q2) (parseNcPoints o)
+        | none => "skip bad-args" }
+  | "polygons_intersection" | "polygons_touching" => some {
+      model := fun a => run (do let p1 ← plist pv2; let p2 ← plist pv2; pend; pure (modelNcLocs p1 p2)) a
+      oracle := fun a o => match run (do let p1 ← plist pv2; let p2 ← plist pv2; pure (p1, p2)) a with
+        | some (p1, p2) =>
+          let P1 := p1.map q2; let P2 := p2.map q2
+          let bb := (P1 ++ P2).foldl (fun (m : Rat) v => rmax m (ninf v)) 0
+          let (r, same) := parseNcLocs P1.toArray P2.toArray ((1 + bb) / 100000000) o
+          let v := oracleNc P1 P2 r
+          if !same && !(v.startsWith "skip") then
+            "fail the-two-locations-of-an-intersection-denote-different-points" ++
+              (if vertexOnBoundary P1 P2 || vertexOnBoundary P2 P1 then " [vertex-on-boundary]" else "")
+          else v
+        | none => "skip bad-args" }
   | "orientation2d" => some {
       model := fun a => run (do let p ← pv2; let q' ← pv2; let r ← pv2; let e ← pf; pend
                                 pure (fori (orientation2d p q' r e))) a
